@@ -82,7 +82,7 @@ func symBinop(fr *frame, op token.Token, t types.Type, x, y value) value {
 			cnt = tResize(b, false, bits)
 		} else {
 			big := app(sortBool, 0, "bvuge", b, bvConst(uint64(bits), b.bits))
-			cnt = term{fmt.Sprintf("(ite %s %s %s)", big.s, bvConst(uint64(bits), bits).s, tResize(b, false, bits).s), sortBV, bits}
+			cnt = term{s: fmt.Sprintf("(ite %s %s %s)", big.s, bvConst(uint64(bits), bits).s, tResize(b, false, bits).s), sort: sortBV, bits: bits}
 		}
 		if op == token.SHL {
 			return symInt{app(sortBV, bits, "bvshl", a, cnt), kx}
@@ -205,31 +205,173 @@ func andV(a, b value) value {
 
 // strEq decides rope equality structurally where that is sound, else builds an SMT equality.
 func strEq(x, y value) value {
-	a, b := strOf(x), strOf(y)
+	x, y = strOf(x).norm(), strOf(y).norm()
+	sx, okx := x.(string)
+	sy, oky := y.(string)
+	if okx && oky {
+		return sx == sy
+	}
+	if okx {
+		return ropeEqLit(y.(symStr), sx)
+	}
+	if oky {
+		return ropeEqLit(x.(symStr), sy)
+	}
+	a, b := x.(symStr), y.(symStr)
 	if len(a.parts) == len(b.parts) {
-		same := true
+		// pairwise alignment is sound when every part pair is (same literal) or (integer atoms
+		// delimited by non-digit neighbours): decimal rendering is injective
+		var acc value = true
+		aligned := true
 		for i := range a.parts {
-			if a.parts[i].atom != b.parts[i].atom || a.parts[i].lit != b.parts[i].lit {
-				same = false
+			pa, pb := a.parts[i], b.parts[i]
+			switch {
+			case pa.atom == nil && pb.atom == nil:
+				if pa.lit != pb.lit {
+					// literals of different text may still align differently around atoms; only
+					// decide when both ropes have the same atom positions and literals differ
+					acc = false
+				}
+			case pa.atom != nil && pb.atom != nil:
+				if pa.atom == pb.atom || (pa.atom.t.s == pb.atom.t.s && pa.atom.isInt == pb.atom.isInt && pa.atom.signed == pb.atom.signed) {
+					continue
+				}
+				if pa.atom.isInt && pb.atom.isInt && pa.atom.signed == pb.atom.signed && intAtomDelimited(a, i) && intAtomDelimited(b, i) {
+					w := 64
+					acc = andV(acc, simplifyBool(symBool{tEq(tResize(pa.atom.t, pa.atom.signed, w), tResize(pb.atom.t, pb.atom.signed, w))}))
+					continue
+				}
+				aligned = false
+			default:
+				aligned = false
+			}
+			if !aligned {
 				break
 			}
 		}
-		if same {
-			return true
-		}
-	}
-	// single finite-domain atom vs literal outside its domain
-	if len(a.parts) == 1 && a.parts[0].atom != nil && a.parts[0].atom.dom != nil {
-		if s, ok := y.(string); ok && !contains(a.parts[0].atom.dom, s) {
-			return false
-		}
-	}
-	if len(b.parts) == 1 && b.parts[0].atom != nil && b.parts[0].atom.dom != nil {
-		if s, ok := x.(string); ok && !contains(b.parts[0].atom.dom, s) {
-			return false
+		if aligned && allIntAtomsDelimited(a) && allIntAtomsDelimited(b) {
+			return acc
 		}
 	}
 	return simplifyBool(symBool{tEq(strTerm(x), strTerm(y))})
+}
+
+func isDigitByte(c byte) bool { return c >= '0' && c <= '9' || c == '-' }
+
+func intAtomDelimited(s symStr, i int) bool {
+	if i > 0 {
+		p := s.parts[i-1]
+		if p.atom != nil || isDigitByte(p.lit[len(p.lit)-1]) {
+			return false
+		}
+	}
+	if i+1 < len(s.parts) {
+		p := s.parts[i+1]
+		if p.atom != nil || isDigitByte(p.lit[0]) {
+			return false
+		}
+	}
+	return true
+}
+
+func allIntAtomsDelimited(s symStr) bool {
+	for i, p := range s.parts {
+		if p.atom != nil {
+			if !p.atom.isInt || !intAtomDelimited(s, i) {
+				return false
+			}
+		}
+	}
+	return true
+}
+
+// ropeEqLit compares a rope with a concrete string, peeling literal prefix/suffix parts.
+func ropeEqLit(a symStr, lit string) value {
+	parts := a.parts
+	for len(parts) > 0 && parts[0].atom == nil {
+		if !hasPrefix(lit, parts[0].lit) {
+			return false
+		}
+		lit = lit[len(parts[0].lit):]
+		parts = parts[1:]
+	}
+	for len(parts) > 0 && parts[len(parts)-1].atom == nil {
+		l := parts[len(parts)-1].lit
+		if len(lit) < len(l) || lit[len(lit)-len(l):] != l {
+			return false
+		}
+		lit = lit[:len(lit)-len(l)]
+		parts = parts[:len(parts)-1]
+	}
+	if len(parts) == 0 {
+		return lit == ""
+	}
+	if len(parts) == 1 {
+		at := parts[0].atom
+		if at.isInt {
+			// decimal text of an integer equals lit iff lit is the canonical rendering of its value
+			if n, ok := parseCanonicalInt(lit, at.signed, at.t.bits); ok {
+				return simplifyBool(symBool{tEq(at.t, bvConst(n, at.t.bits))})
+			}
+			return false
+		}
+		if at.dom != nil && !contains(at.dom, lit) {
+			return false
+		}
+		t := tEq(at.t, strConst(lit))
+		t.eqAtom, t.eqLit = at, lit
+		return symBool{t}
+	}
+	return simplifyBool(symBool{tEq(strTerm(symStr{parts}), strConst(lit))})
+}
+
+func hasPrefix(s, p string) bool { return len(s) >= len(p) && s[:len(p)] == p }
+
+func parseCanonicalInt(lit string, signed bool, bits int) (uint64, bool) {
+	if lit == "" {
+		return 0, false
+	}
+	neg := false
+	d := lit
+	if d[0] == '-' {
+		if !signed {
+			return 0, false
+		}
+		neg, d = true, d[1:]
+	}
+	if d == "" || (len(d) > 1 && d[0] == '0') || (neg && d == "0") || len(d) > 20 {
+		return 0, false
+	}
+	var n uint64
+	for i := 0; i < len(d); i++ {
+		if d[i] < '0' || d[i] > '9' {
+			return 0, false
+		}
+		nn := n*10 + uint64(d[i]-'0')
+		if nn < n {
+			return 0, false
+		}
+		n = nn
+	}
+	if bits < 64 {
+		lim := uint64(1) << uint(bits)
+		if signed {
+			lim >>= 1
+			if (!neg && n >= lim) || (neg && n > lim) {
+				return 0, false
+			}
+		} else if n >= lim {
+			return 0, false
+		}
+	} else if signed {
+		if (!neg && n >= 1<<63) || (neg && n > 1<<63) {
+			return 0, false
+		}
+	}
+	if neg {
+		n = -n
+	}
+	return n, true
 }
 
 func contains(xs []string, s string) bool {
